@@ -208,4 +208,18 @@ PROPS = {
         "text": "After every step: Parent{children} == model == Child{parent} == Child(filter:{parent_id}); _count through the relation equals the listed children; filters through the relation (parent by child field, child by parent field, with order) agree with the model from both sides, with and without indexes; both sides of the one-to-one and self-referencing relations agree and no target is referenced by two live documents after a local write (a write that would do so must be rejected).",
         "note": "A child whose relation field points to a deleted parent must appear under no parent. Remote merges are not subject to the one-to-one clause (the statement speaks of local writes).",
     },
+    "C10": {
+        "engine": "E5", "level": "exploration", "design_ref": "DESIGN.md §5 C10",
+        "technique": "deterministic simulation, differential twin: a real node with document ACP vs. a twin that never receives the private documents, over seeded create/update/delete/grant/revoke histories; the reader's view is compared with the owner's view with the hidden documents filtered out explicitly",
+        "rule": ("one policy, identities owner / reader / stranger / anonymous; histories of 6-30 steps: public and private documents created, updated, deleted, reader relationship granted and revoked, update/delete attempts without permission (by id and by filter). "
+                 "After every step ~20 requests per restricted identity: listing, showDeleted, filters (incl. indexed fields and _or), order, limit/offset, count/sum/avg/max/min, grouping, commits (all / ordered+limited / by document), latestCommits, reads by id and at a commit of private documents. "
+                 "distinct_nontrivial = distinct (request kind, identity) pairs for which both sides answered and agreed"),
+        "real_vs_stub": "real: local document ACP engine (acp_core/zanzi, in memory), permissioned fetcher, explicit permission checks on update/delete, commits DAG scan, planner; badger in-memory under SimStore; twin: second real node given only the public operations; no network (the E2 access-filter probe fetch_refused_by_access_filter is separate)",
+        "assumptions": ASSUME_COMMON + ["documents created without an identity are public; signing is off so that public commits have identical cids on both nodes"],
+        "probes": ["requests_compared", "grants", "revokes", "attacks", "checkpoints"],
+        "quick": {"count": 2, "budget_s": 80, "workers": 16},
+        "thorough": {"count": 100000, "budget_s": 1700, "workers": 16},
+        "text": "For stranger and anonymous requesters every request must return on the real node exactly what it returns on the database that never contained the private documents (rows as multisets, ordered requests as sequences, commits verbatim). For the reader, whose visibility changes with grants and revocations, each request must equal the owner's result with the currently hidden documents excluded by an explicit _docID filter. Write attempts without permission must leave every private document unchanged.",
+        "note": "The incremental twin cannot follow revocations, hence the second oracle for the reader (same node, owner + explicit exclusion). Restarts of an ACP node and subscriptions are not part of this check; the ACP engine dominates the cost (about 2 s per history).",
+    },
 }
